@@ -401,3 +401,14 @@ impl Opts {
         }
     }
 }
+
+/// Message and location of the most recent panic (recorded by the hook installed in `main`).
+pub static LAST_PANIC: std::sync::Mutex<String> = std::sync::Mutex::new(String::new());
+
+/// Runs real-code calls that may panic; `Err(message)` instead of unwinding further.
+pub fn catch<R>(f: impl FnOnce() -> R) -> Result<R, String> {
+    match std::panic::catch_unwind(std::panic::AssertUnwindSafe(f)) {
+        Ok(r) => Ok(r),
+        Err(_) => Err(LAST_PANIC.lock().map(|m| m.clone()).unwrap_or_default()),
+    }
+}
